@@ -18,6 +18,8 @@ THEOREMS = ['C14_cells_none_lost', 'C14_cells_none_lost_in', 'C14_cells_keys', '
             # the separators next to a name follow the lexer of fix d9c2c16 exactly
             'C14_text_parse_cfile_v1', 'C14_text_idsep_exact', 'C14_text_comment_lexed_as_name', 'C14_text_slash_name_lost',
             'C14_text_name_end_exact', 'C14_text_instance0_exact', 'C14_text_example_wide', 'C14_text_cfile_ok_not_necessary']
+# source tie (translation): Gen/SdfCallbacksSrc.v = the callbacks of Model/Sdf.v
+THEOREMS += ['C14_callbacks_source_is_model', 'C14_callbacks_source_nonvacuous']
 LIBS = ['NANGATE', 'SAED32', 'SAED90', 'GSC180', 'NANGATE_ZN']
 
 
@@ -36,7 +38,24 @@ def pin_cases():
 def run(ck):
     res = gen_all.generate(['TechLibs'])
     ck.obligation('Gen/TechLibs.v regenerated from techlib.py', not any(res.values()), 'translation', str(res))
-    ck.prove('C14', THEOREMS)
+    # translation (tie T): Gen/SdfCallbacksSrc.v is regenerated from the current text of sdf.py; C14_callbacks_source_is_model then
+    # re-proves that the translated triple / sanitize / iopath / interconnect are the callbacks of Model/Sdf.v
+    from harness import sdf_callbacks_src as scs
+    cb_ok = scs.translate(ck)
+    proved, _ = ck.prove('C14', THEOREMS)
+    if not proved:
+        from vcheck import core
+        core.coq_make(core.support_targets())     # the models must exist for the correspondence even when a proof broke
+        if cb_ok:
+            core.coq_make(['theories/Gen/SdfCallbacksSrc.vo'])
+    if cb_ok:
+        cbs = scs.gen_cases(random.Random(ck.seed * 104729 + 14), ck.scale(600, 12000))
+        okc, outc = ck.coq_eval('sdfcb', scs.cases_file([c for c, _ in cbs]))
+        badc = cg.parse_nat_list(outc) if okc else None
+        ck.count(len(cbs), 'callback-source')
+        ck.obligation(f'translated source Gen/SdfCallbacksSrc.v = the real SdfTransformer.triple / iopath / interconnect on {len(cbs)} argument '
+                      'lists (number tokens on and off the float() domain, 0 to 4 triples, short argument lists; result or exception)',
+                      okc and badc == [], 'correspondence', f'failing: {[cbs[j][1] for j in (badc or [])[:4]]} {"" if okc else outc[-600:]}')
     rng = random.Random(ck.seed * 7919 + 14)
     from kyupy import verilog, techlib
     fails, cases, meta = [], [], []
